@@ -6,6 +6,7 @@ import SlotVerif.Proofs.Variants
 import SlotVerif.Proofs.MinKey
 import SlotVerif.Proofs.Add
 import SlotVerif.Proofs.AddGroup
+import SlotVerif.Proofs.AddSeq
 /-!
 # C09 — Insertion is canonical: known terms create nothing, lookup agrees with add
 
@@ -203,6 +204,16 @@ theorem add_then_lookup_and_readd {s s' : Snap} {n syn syn2 : Node} {f2o f2o2 : 
     (∃ m, Snap.lookup s' n = some { id := a.id, m := m }) ∧
     (∃ m, Snap.add s' n f2o2 syn2 data2 = some (s', { id := a.id, m := m })) :=
   ⟨Snap.lookup_after_add_total hok h, Snap.add_twice hok h⟩
+
+/-- **histories of `add` calls**: from every state satisfying `AddOK`, after any sequence of `add`s (hits and misses mixed), every
+node added anywhere in the sequence is found by `lookup` at the end, in the class its `add` returned; and nothing old has changed
+(handles resolve as before, `eq` answers as before, nodes that were represented are found with the same invocation) -/
+theorem every_added_node_is_found {s s'' : Snap} {l : List (Node × AppId)} (hok : Snap.AddOK s) (h : Snap.Adds s l s'') :
+    (∀ p ∈ l, ∃ m, Snap.lookup s'' p.1 = some { id := p.2.id, m := m }) ∧
+    (∀ b r, Snap.find s b = some r → Snap.find s'' b = some r) ∧
+    (∀ b c r, Snap.eq s b c = some r → Snap.eq s'' b c = some r) ∧
+    (∀ m x, Snap.lookup s m = some x → Snap.lookup s'' m = some x) :=
+  ⟨Snap.adds_lookup hok h, (Snap.adds_keep hok h).2⟩
 
 /-- non-vacuity: on the empty e-graph the node `f2($8, $12)` (variant 7, two slot fields) is a miss; with the fresh slots
 `101, 105` handed in, the model allocates class 0 -/
